@@ -24,12 +24,25 @@ THEOREMS = [
     'C07_weighted_xaig_size_small_vectors', 'C07_weighted_struct_pp_shapes_upto8',
     'C07_sum_two_numbers_exact', 'C07_sum_two_numbers_with_shift_exact',
     'C07_generate_sum_n_bits', 'C07_generate_sum_weighted_bits_efficient', 'C07_generate_sum_weighted_bits_naive',
+    # normal termination for ALL sizes (works) and the unconditional corollaries (total_exact)
+    'C07_sum_n_bits_works', 'C07_sum_n_bits_total_exact',
+    'C07_sum_n_bits_easy_works', 'C07_sum_n_bits_easy_total_exact',
+    'C07_sum_pow2_m1_works', 'C07_sum_pow2_m1_total_exact', 'C07_new_gates_carry_uuid_labels',
+    'C07_sum_n_weighted_bits_works', 'C07_sum_n_weighted_bits_total_exact',
+    'C07_sum_n_weighted_bits_naive_works', 'C07_sum_n_weighted_bits_naive_total_exact',
+    'C07_sum_two_numbers_works', 'C07_sum_two_numbers_total_exact',
+    'C07_sum_two_numbers_with_shift_works', 'C07_sum_two_numbers_with_shift_total_exact',
+    'C07_generate_sum_n_bits_works', 'C07_generate_sum_n_bits_total_exact',
+    'C07_generate_sum_weighted_bits_efficient_works', 'C07_generate_sum_weighted_bits_efficient_total_exact',
+    'C07_generate_sum_weighted_bits_naive_works', 'C07_generate_sum_weighted_bits_naive_total_exact',
+    'C07_works_hypotheses_satisfiable', 'C07_pow2_m1_needs_nonempty_uuid_labels',
 ]
 PARTIAL = {
     'C07_sum_n_bits_xaig_returns_upto64':
-        'the all-size theorems are conditional on the model run returning Ok; that the fuel of the modelled while '
-        'loops of the XAIG scheduler suffices (no Err OutOfFuel), and that m equals the number of binary digits of '
-        'n, is established by kernel computation for n <= 64 on the bare circuit only',
+        'EXTRA facts, not part of the property: that the run returns Ok is now proved for ALL n and every host '
+        '(C07_sum_n_bits_works / C07_sum_n_bits_total_exact); what remains bounded (kernel computation, n <= 64, '
+        'bare circuit) is only that m equals the number of binary digits of n and that the result labels are '
+        'pairwise distinct',
     'C07_weighted_xaig_size_small_vectors':
         'an EXTRA fact, not part of the property: the tighter bound 4.5 n - 2 m (which the pinned docstring '
         'claimed for all weight vectors and which C07_weighted_documented_bound_refuted shows to be false) does '
@@ -37,12 +50,9 @@ PARTIAL = {
         '0..3, bare circuit). The documented bound after fixes/D27.patch, 5 n - 2 m, is proved for ALL weight '
         'vectors and hosts in C07_sum_n_weighted_bits_exact',
     'C07_bit_counters_return_upto40':
-        'the all-size theorems are conditional on the model run returning Ok; that the fuel of the modelled while '
-        'loops suffices (no Err OutOfFuel) is computed for n <= 40, not proved for '
-        'all n; the correspondence check shows Ok wherever the implementation returned',
-    'C07_weighted_struct_pp_shapes_upto8':
-        'as above for the weighted sums: Ok (fuel suffices and the sentinel branch, where Python would `break` '
-        'with a truncated result and the model returns Err, is not taken) is computed for the enumerated family only',
+        'EXTRA facts, not part of the property: Ok is now proved for ALL n (C07_sum_n_bits_works, '
+        'C07_sum_n_bits_easy_works, C07_sum_pow2_m1_works); what remains bounded (n <= 40, bare circuit) is m = '
+        'number of binary digits of n and pairwise distinct result labels',
 }
 LEVEL_TEXT = ('every summation generator (add_sum_n_bits in both bases incl. the MDFA/Stockmeyer scheduler, '
               'add_sum_n_bits_easy, add_sum_pow2_m1, add_sum_n_weighted_bits(_naive), add_sum_two_numbers(_with_shift) '
@@ -54,18 +64,29 @@ LEVEL_TEXT = ('every summation generator (add_sum_n_bits in both bases incl. the
               '(enum member or string in any letter case); ALL documented gate-count bounds are proved for all sizes and '
               'hosts: 4.5n-2m (add_sum_n_bits XAIG) and 5n-2m (efficient weighted sum XAIG) by potential arguments over '
               'the MDFA/Stockmeyer schedule, 7n-3m (AIG), 5n-3m (easy, naive XAIG); the bound 4.5n-2m that the pinned '
-              'docstring claimed for the weighted sum is REFUTED in the model and on the code (defect D27); the model is tied to /repo by regenerating the cells (translator T4) and by '
+              'docstring claimed for the weighted sum is REFUTED in the model and on the code (defect D27); NORMAL '
+              'TERMINATION is proved for ALL sizes (C07_*_works): for every generator the model run returns Ok whenever '
+              'the operands are gates of the host, the basis resolves, the uuid naming function is injective and the '
+              'input is not one on which the implementation itself raises (empty operand lists, see C07.v) - the fuel of '
+              'every modelled while loop suffices and the sentinel `break` of the weighted loops is unreachable - so '
+              'every value theorem has an UNCONDITIONAL corollary (C07_*_total_exact); the model is tied to /repo by regenerating the cells (translator T4) and by '
               'netlist-equality correspondence on every run')
 LEVEL_NOTE = ('Coq kernel + vm_compute; translators T1, T4; correspondence harness (order-preserving label renaming '
-              'new_%032x -> new_%04x); theorems are conditional on the model run returning Ok; the model is of the '
+              'new_%032x -> new_%04x); the *_exact theorems are conditional on the model run returning Ok, the *_works / '
+              '*_total_exact theorems discharge that condition for every injective uuid naming function (for '
+              'add_sum_pow2_m1 additionally: "" is neither a gate of the host nor a uuid label; the second is shown '
+              'necessary by C07_pow2_m1_needs_nonempty_uuid_labels); the model is of the '
               'repaired code (fixes/D5, D6, D7, D27; D27 corrects the documented bound, the oracle reads the bounds from the docstrings of the tree under test); where Python would leave the weighted loop through the sentinel '
-              '`break` with a truncated result the model returns Err; add_sum_pow2_m1: the value clause asks that the '
+              '`break` with a truncated result the model returns Err (proved unreachable); add_sum_pow2_m1: the value clause asks that the '
               'empty string is not a gate label (filter(None, .) would drop such a label)')
 TECHNIQUE = ('Coq proof: generators as programs of a deep-embedded builder monad over the Circuit model; cells by '
              'exhaustive case analysis; scheduling loops by invariants "sum of the level lists + 2 * sum of the next '
              'level + emitted bits = target" with pairs (x, x xor y) counted as x + y; sorted work lists of the weighted '
              'sums by a level-sortedness invariant; gate-type set and gate count carried as an `adds T c c\' g` '
-             'invariant; basis resolution as a total function on the Python value; bounded structural facts by '
+             'invariant; basis resolution as a total function on the Python value; termination by the decreasing measure '
+             '|solo| + 2 |pairs| per level (fuel), the non-increasing potential (strict level bound) + measure <= inf '
+             '(sentinel), existence invariants for every label in the work lists and pigeonhole for the fresh-label '
+             'retry loop; label provenance of new gates by induction on gate_new-only programs; bounded structural facts by '
              'vm_compute; netlist-equality correspondence under vm_compute; direct oracle through '
              'Circuit.evaluate_full_circuit')
 TRUSTED = ['uuid4 is modelled as a counter with a naming function that is universally quantified in every theorem; '
